@@ -695,7 +695,128 @@ func c07RunRedefine(name, q1, q2 string, portalBetween bool) explore.Result {
 	return res
 }
 
+// c07RunNames: two statements and two portals whose names share a long prefix (or one is a prefix of the other):
+// each name is its own name. Bind / Execute resolve to the statement parsed under exactly that name, closing one
+// name leaves the other resolvable.
+func c07RunNames(a, b string) explore.Result {
+	var res explore.Result
+	res.Outcome = "plain"
+	res.Key = fmt.Sprint("names", len(a), len(b), a[len(a)-1:], b[len(b)-1:])
+	var trace []string
+	parse := func(ctx context.Context, q string) (wire.PreparedStatements, error) {
+		return wire.Prepared(wire.NewStatement(func(ctx context.Context, w wire.DataWriter, params []wire.Parameter) error {
+			trace = append(trace, "ran "+q)
+			return w.Complete(q)
+		})), nil
+	}
+	one, err := harness.StartOne(parse, wire.MessageBufferSize(1<<16))
+	if err != nil {
+		res.Engine = err.Error()
+		return res
+	}
+	defer one.Stop()
+	one.Step(pgproto.Startup("user", "u"))
+	what := fmt.Sprintf("names of %d and %d bytes that agree in their first %d bytes", len(a), len(b), commonPrefix(a, b))
+	step := func(label string, msgs []byte, wantKinds string, wantTrace ...string) bool {
+		trace = nil
+		out, _ := one.Step(pgproto.Cat(msgs, pgproto.Sync()))
+		if k := harness.Kinds(out); k != wantKinds || !sameStrings(trace, wantTrace) {
+			res.Fail("wrong-resolution", fmt.Sprintf("%s: %s answered %q and ran %v, expected %q and %v", what, label, k, trace, wantKinds, wantTrace))
+			return false
+		}
+		return true
+	}
+	ok := step("Parse both statements", pgproto.Cat(pgproto.Parse(a, "alpha"), pgproto.Parse(b, "beta")), "11Z") &&
+		step("Bind a portal to each (portal names = statement names)", pgproto.Cat(pgproto.Bind(a, a, nil, nil, nil), pgproto.Bind(b, b, nil, nil, nil)), "22Z") &&
+		step("Execute the first portal", pgproto.Execute(a, 0), "CZ", "ran alpha") &&
+		step("Execute the second portal", pgproto.Execute(b, 0), "CZ", "ran beta") &&
+		step("Close the first portal, execute the second", pgproto.Cat(pgproto.Close('P', a), pgproto.Execute(b, 0)), "3CZ", "ran beta") &&
+		step("Close the first statement, bind and execute the second", pgproto.Cat(pgproto.Close('S', a), pgproto.Bind("", b, nil, nil, nil), pgproto.Execute("", 0)), "32CZ", "ran beta")
+	if ok {
+		trace = nil
+		out, _ := one.Step(pgproto.Cat(pgproto.Bind("", a, nil, nil, nil), pgproto.Sync()))
+		if k := harness.Kinds(out); k != "EZ" {
+			res.Fail("closed-name-still-resolvable", fmt.Sprintf("%s: Bind to the closed first name answered %q", what, k))
+		}
+	}
+	res.Trans = []string{"two long names|use|resolved"}
+	return res
+}
+
+func commonPrefix(a, b string) int {
+	n := 0
+	for n < len(a) && n < len(b) && a[n] == b[n] {
+		n++
+	}
+	return n
+}
+
+// c07RunRecycled: a statement is closed while a portal still points at it; whatever is parsed afterwards (any
+// name, this or another connection), executing that portal runs the OLD statement or fails - never another one.
+func c07RunRecycled(parsesAfter int, otherConn bool) explore.Result {
+	var res explore.Result
+	res.Outcome = "plain"
+	res.Key = fmt.Sprint("recycled", parsesAfter, otherConn)
+	ran := map[string][]string{}
+	parse := func(ctx context.Context, q string) (wire.PreparedStatements, error) {
+		who := wire.RemoteAddress(ctx).String()
+		return wire.Prepared(wire.NewStatement(func(ctx context.Context, w wire.DataWriter, params []wire.Parameter) error {
+			ran[who] = append(ran[who], q)
+			return w.Complete(q)
+		})), nil
+	}
+	srv, err := harness.NewServer(parse)
+	if err != nil {
+		res.Engine = err.Error()
+		return res
+	}
+	defer srv.Stop()
+	c1 := srv.Connect()
+	c1.Step(pgproto.Startup("user", "u1"))
+	c1.Step(pgproto.Cat(pgproto.Parse("s", "old statement"), pgproto.Bind("p", "s", nil, nil, nil), pgproto.Close('S', "s"), pgproto.Sync()))
+	c2 := c1
+	if otherConn {
+		c2 = srv.Connect()
+		c2.Step(pgproto.Startup("user", "u2"))
+	}
+	for i := 0; i < parsesAfter; i++ {
+		c2.Step(pgproto.Cat(pgproto.Parse(fmt.Sprintf("n%d", i%3), fmt.Sprintf("later statement %d", i)), pgproto.Sync()))
+	}
+	before := len(ran[c1.C.Remote.String()])
+	out, _ := c1.Step(pgproto.Cat(pgproto.Execute("p", 0), pgproto.Sync()))
+	got := ran[c1.C.Remote.String()][before:]
+	k := harness.Kinds(out)
+	what := fmt.Sprintf("Parse s, Bind p<-s, Close(S s), then %d further Parse messages (other connection: %v), then Execute p", parsesAfter, otherConn)
+	switch {
+	case k == "CZ" && len(got) == 1 && got[0] == "old statement":
+	case k == "EZ" && len(got) == 0:
+	default:
+		res.Fail("wrong-resolution", fmt.Sprintf("%s: answered %q and ran %v (the portal may keep the old statement or be gone, never run another one)", what, k, got))
+	}
+	res.Trans = []string{"portal of a closed statement|execute|old statement or error"}
+	return res
+}
+
 func c07Enumerate(tier string, emit explore.Emit) {
+	for _, n := range []int{1, 31, 62, 63, 64, 65, 127, 128, 255, 256, 1000} {
+		base := strings.Repeat("n", n)
+		for vi, pair := range [][2]string{{base + "a", base + "b"}, {base, base + "x"}, {base + "x", base}} {
+			pair := pair
+			emit(explore.Case{Family: "long-names", Size: 45,
+				Desc: func() any {
+					return map[string]any{"shared_prefix_bytes": n, "variant": vi, "name_lengths": []int{len(pair[0]), len(pair[1])}}
+				},
+				Run: func() explore.Result { return c07RunNames(pair[0], pair[1]) }})
+		}
+	}
+	for _, k := range []int{0, 1, 2, 3, 8, 70} {
+		for _, other := range []bool{false, true} {
+			k, other := k, other
+			emit(explore.Case{Family: "closed-statement-portal", Size: 46,
+				Desc: func() any { return map[string]any{"parses_after_the_close": k, "on_another_connection": other} },
+				Run:  func() explore.Result { return c07RunRecycled(k, other) }})
+		}
+	}
 	for _, name := range []string{"", "s"} {
 		for _, q1 := range []string{"two", "one"} {
 			for _, q2 := range []string{"", " ", "\t\n", "one", "two", " two "} {
